@@ -434,6 +434,8 @@ fn short_cfg(p: &mut Prng, small: bool) -> TreeCfg {
 		cfg.max_depth = 2 + p.usize_below(4);
 		cfg.tx_per_mille = 500;
 	}
+	// competing blocks carry the same pool transactions: the same outputs on several forks, at other positions
+	cfg.remine_per_mille = 500;
 	cfg
 }
 
@@ -674,6 +676,9 @@ struct Ctx<'a> {
 	/// block -> (length, digest) of the bytes every successful `txhashset_read` caller could read from
 	/// the file it was handed, at the moment the call returned
 	archives: Mutex<HashMap<Hash, Vec<(u64, u64)>>>,
+	/// every answered `get_unspent` call: (commitment asked, answer as (1-based position, height), head read before the
+	/// call, head read after it); judged after the run against the logged sequence of heads
+	unspent_obs: Mutex<Vec<(Commitment, Option<(u64, u64)>, Hash, Hash)>>,
 }
 
 impl<'a> Ctx<'a> {
@@ -968,7 +973,13 @@ fn op_get_unspent(ctx: &Ctx, rs: &mut RState, p: &mut Prng, slot: usize) {
 	let chain = ctx.chain;
 	let c = *p.pick(&ctx.w.commits);
 	inc(&mut rs.st, "op.get_unspent");
-	match catch(|| chain.get_unspent(c)) {
+	let h0 = chain.head().ok().map(|t| t.last_block_h);
+	let res = catch(|| chain.get_unspent(c));
+	let h1 = chain.head().ok().map(|t| t.last_block_h);
+	if let (Ok(Ok(ans)), Some(h0), Some(h1)) = (&res, h0, h1) {
+		ctx.unspent_obs.lock().unwrap().push((c, ans.as_ref().map(|(_, pos)| (pos.pos, pos.height)), h0, h1));
+	}
+	match res {
 		Err(pn) => ctx.panic("get_unspent", &pn),
 		Ok(Err(e)) => inc(&mut rs.st, &format!("get_unspent.err:{}", short_err(&e))),
 		Ok(Ok(None)) => inc(&mut rs.st, "get_unspent.none"),
@@ -1720,6 +1731,7 @@ fn execute_run(run: &Run, w: &WorldData, rc: &RunCfg, sc: &Scratch, san: bool) -
 		compactions: AtomicU64::new(0),
 		dir: dir.clone(),
 		archives: Mutex::new(HashMap::new()),
+		unspent_obs: Mutex::new(vec![]),
 	};
 	ctx.register(0);
 	verif_hooks::events_enable(true);
@@ -1918,6 +1930,56 @@ fn execute_run(run: &Run, w: &WorldData, rc: &RunCfg, sc: &Scratch, san: bool) -
 			} else {
 				hcur = newh;
 				htd = ntd;
+			}
+		}
+		// ---- every get_unspent answer is the answer of the state of a block that was the head at some moment between
+		// the caller's head() before the call and its head() after it (the call reads the position index and the output
+		// MMR; read together under the lock they are the state of exactly one head)
+		{
+			let mut seq: Vec<Hash> = vec![start_head.last_block_h];
+			for ev in &events {
+				if ev.kind == "HeadMove" {
+					seq.push(hash_of(&ev.bytes[1]));
+				}
+			}
+			let at: HashMap<Hash, usize> = seq.iter().enumerate().map(|(i, h)| (*h, i)).collect();
+			let obs = std::mem::take(&mut *ctx.unspent_obs.lock().unwrap());
+			let mut hist = w.hist.lock().unwrap();
+			let mut reported = 0;
+			for (c, ans, h0, h1) in obs {
+				let (i0, i1) = match (at.get(&h0), at.get(&h1)) {
+					(Some(a), Some(b)) if a <= b => (*a, *b),
+					_ => {
+						inc(&mut st, "get_unspent.calls_not_placed_in_the_head_sequence");
+						continue;
+					}
+				};
+				let mut explained = false;
+				let mut wants: Vec<String> = vec![];
+				for h in &seq[i0..=i1] {
+					let rs = hist.ledger.state_at(h);
+					let want = rs.utxo.get(&c).map(|&i| (rs.out_mmr.leaf_pos[i] as u64 + 1, rs.outs[i].height));
+					if want == ans {
+						explained = true;
+						break;
+					}
+					wants.push(format!("{:?}", want));
+				}
+				if explained {
+					inc(&mut st, "get_unspent.answers_explained_by_a_head_of_the_call_interval");
+					if i1 > i0 {
+						inc(&mut st, "get_unspent.calls_spanning_a_head_move");
+					}
+				} else if reported < 3 {
+					reported += 1;
+					ctx.viol(
+						"get_unspent_answer_of_no_committed_state",
+						format!(
+							"get_unspent({:?}) = {:?} (position, height); the heads between the caller's head() before and after the call were {:?} and their states answer {:?}: the answer mixes two states (or an uncommitted one)",
+							c, ans, &seq[i0..=i1], wants
+						),
+					);
+				}
 			}
 		}
 		if ctx.panics.load(Ordering::SeqCst) == 0 {
@@ -2624,6 +2686,8 @@ fn main() {
 	req("template_roots_checked", 3000, 30000);
 	req("template_roots_checked_with_tx", 400, 4000);
 	req("get_unspent.some", 1000, 10000);
+	req("get_unspent.answers_explained_by_a_head_of_the_call_interval", 2000, 20000);
+	req("get_unspent.calls_spanning_a_head_move", 20, 200);
 	req("validate_tx.ok", 300, 3000);
 	req("header_by_height.ok", 1000, 10000);
 	req("validate_fast.ok", 150, 1500);
